@@ -396,6 +396,7 @@ Fixpoint src_leaves (fuel : nat) (el : node) (host_lazy : bool) {struct fuel} : 
                              | CSpread e => [(e, eager)]
                              | COn e => [(e, eager)]
                              | CElem _ site => src_leaves f site host_lazy
+                             | CBreak => []
                              end) cs
           ++ flat_map (fun d => match d with ADir _ v a _ => (v, eager) :: match a with Some x => [(x, eager)] | None => [] end end) dirs
           ++ (match vslots with
